@@ -17,6 +17,12 @@ maxnum(W, y) = ISO weeks of y (52/53), maxnum(D, y) = 365/366.
   vtl_time_agg_tp(p, t)   = error 2-1-19-1 if t finer than p; p if same; else the t-period containing the last day of p
   vtl_tp_datediff(a, b)   = |end(a) - end(b)| days  vtl_dateadd(d, k, ind) = d + k units (month arithmetic clamps)
   vtl_daytoyear/daytomonth: P<k div 365>Y<k mod 365>D / P<k div 30>M<k mod 30>D for k >= 0, error 2-1-19-16 below 0
+
+Verdict rules: a counter-model on ANY path refutes the obligation (whatever the solver said on the other paths) and is
+replayed in the real DuckDB.  When no path is refuted but the solver answers `unknown` on one, or a feasible path
+leaves the SQL model, the obligation falls back to a BOUNDED NATIVE SEARCH (vc/sqlnative.py): every period / day of
+1900..2100 through the real macro in the real DuckDB against the same specification folded on integers; a concrete
+disagreement is a replayed violation (backend `bounded-native-search(duckdb)`), none leaves the obligation undecided.
 """
 from __future__ import annotations
 
@@ -29,7 +35,7 @@ from typing import Any, Callable, Dict, List, Optional, Sequence, Tuple
 sys.path.insert(0, str(Path(__file__).resolve().parent.parent))
 from spec import vtl_time as vt  # noqa: E402
 from vc import calendar as cal  # noqa: E402
-from vc import core, smt, sqlconf  # noqa: E402
+from vc import core, smt, sqlconf, sqlnative  # noqa: E402
 from vc.core import Check  # noqa: E402
 from vc.smt import Add, And, Eq, Ge, Ite, Le, Lt, Mul, Neg, Not, Sub  # noqa: E402
 from vc.sqlcheck import discharge_groups, period_text_is  # noqa: E402
@@ -70,6 +76,46 @@ def ival(model: Dict[str, Any], k: str) -> int:
     return v if isinstance(v, int) else core.smt_int(v)
 
 
+def wanted(oid: str) -> bool:
+    """VERIF_ONLY=<substring>: obligations that do not match are neither explored nor recorded."""
+    only = os.environ.get("VERIF_ONLY")
+    return not only or only in oid
+
+
+# ---- bounded native search (last resort of an obligation that the solver leaves undecided) -------------------------
+# Every period / day of the property's own range 1900..2100 goes through the real macro in the real DuckDB and is
+# compared with the computable specification (spec/vtl_time.py folded on integers).  A disagreement is a violation
+# that is already replayed; none leaves the obligation undecided.
+NATIVE_YEARS = range(1900, 2101)
+NATIVE_SHIFTS = (-54, -13, -1, 1, 5, 53)
+Z_EXPR = "(DATE '1970-01-01' + CAST(z AS INTEGER))"
+
+
+def native_periods(ind: str) -> List[Tuple[int, int]]:
+    return [(yy, nn) for yy in NATIVE_YEARS for nn in range(1, int(vt.maxnum(ind, yy)) + 1)]
+
+
+def native_days() -> List[Tuple[int]]:
+    return [(zz,) for zz in range(cal.days_from_civil(NATIVE_YEARS[0], 1, 1), cal.days_from_civil(NATIVE_YEARS[-1], 12, 31) + 1)]
+
+
+def pexpr(ind: str, y: str = "y", n: str = "n") -> str:
+    return sqlnative.period_expr(y, f"'{ind}'", n)
+
+
+def as_date(zz: int) -> datetime.date:
+    return sqlconf.EPOCH + datetime.timedelta(days=zz)
+
+
+def native_fallback(what: str, cols: Sequence[str], expr: str, rows: Callable[[], Sequence[Tuple[Any, ...]]],
+                    want: Callable[[Tuple[Any, ...]], Tuple[str, Any]], show: Callable[[Tuple[Any, ...]], str],
+                    key: str) -> Callable[[], Tuple[bool, str, Any, str]]:
+    def run() -> Tuple[bool, str, Any, str]:
+        res = sqlnative.scan(cols, expr, rows(), want)
+        return sqlnative.report(f"{what}, years {NATIVE_YEARS[0]}..{NATIVE_YEARS[-1]}", res, show, key)
+    return run
+
+
 def main() -> None:  # noqa: C901
     chk = Check("C08", "proof", "DuckDB SQL macros parsed from the working tree (sqlglot) and evaluated symbolically "
                 "(vc.sqlvc: 3VL, error outcomes, character-vector strings, closed-form calendar); per-path VCs against "
@@ -94,7 +140,11 @@ def main() -> None:  # noqa: C901
     base = [Ge(y, YLO), Le(y, YHI)]
     near = [Ge(y, 1900), Le(y, 2100)]          # preferred witness range = the property's own quantifier
 
+    section = [""]            # id of the obligation whose paths are being generated (VERIF_ONLY skips the others)
+
     def explore(pre: Sequence[Any], fn: Callable[[], Any]) -> List[SqlPath]:
+        if not wanted(section[0]):
+            return []
         eng.assume = list(pre)
         try:
             return eng.explore(fn)
@@ -123,6 +173,7 @@ def main() -> None:  # noqa: C901
         # ---- vtl_tp_shift ------------------------------------------------------------------------------
         f = f"{FILE}:vtl_tp_shift"
         chk.under_contract(f)
+        section[0] = f"{f}::calendar-translation::{ind}"
         groups = []
         for n in nums(ind):
             ys, ns = vt.shift(y, ind, n, k)
@@ -144,13 +195,21 @@ def main() -> None:  # noqa: C901
                          "the period k steps after p in calendar order (hence successor, shift(shift(p,k),-k)=p, "
                          "injective, week 53 / day 366 produced exactly when the calendar has them)",
                          groups, ["y", "n", "k"], rp_shift, lambda m, path, ind=ind: f"vtl_tp_shift::{ind}",
-                         prefer=near + [Ge(k, -60), Le(k, 60)])
+                         prefer=near + [Ge(k, -60), Le(k, 60)],
+                         fallback=native_fallback(
+                             f"vtl_tp_shift, every {ind} period x shifts {NATIVE_SHIFTS}", ["y", "n", "k"],
+                             f"vtl_tp_shift({pexpr(ind)}, CAST(k AS INTEGER))",
+                             lambda ind=ind: [(yy, nn, kk) for yy, nn in native_periods(ind) for kk in NATIVE_SHIFTS],
+                             lambda r, ind=ind: ("value", vt.canon(*_swap(vt.shift(r[0], ind, r[1], r[2]), ind))),
+                             lambda r, ind=ind: f"vtl_tp_shift({vt.canon(r[0], ind, r[1])}, {r[2]})",
+                             f"vtl_tp_shift::{ind}"))
 
         # ---- start / end / getmonth / dayofmonth / dayofyear ------------------------------------------------
         for macro, kind in (("vtl_tp_start_date", "date"), ("vtl_tp_end_date", "date"), ("vtl_tp_getmonth", "int"),
                             ("vtl_tp_dayofmonth", "int"), ("vtl_tp_dayofyear", "int")):
             f = f"{FILE}:{macro}"
             chk.under_contract(f)
+            section[0] = f"{f}::calendar::{ind}"
             groups = []
             for n in nums(ind):
                 pre = base + [vt.wf(y, ind, n)]
@@ -172,12 +231,19 @@ def main() -> None:  # noqa: C901
                     {"period": vt.canon(yy, ind, nn), "real": str(got[1]), "calendar": str(want)}
             discharge_groups(chk, eng, f, f"calendar::{ind}", f"[{ind}] {macro}(p) equals the calendar value for every "
                              "well-formed period", groups, ["y", "n"], rp1,
-                             lambda m, path, macro=macro, ind=ind: f"{macro}::{ind}", prefer=near)
+                             lambda m, path, macro=macro, ind=ind: f"{macro}::{ind}", prefer=near,
+                             fallback=native_fallback(
+                                 f"{macro}, every {ind} period", ["y", "n"], f"{macro}({pexpr(ind)})",
+                                 lambda ind=ind: native_periods(ind),
+                                 lambda r, macro=macro, ind=ind: ("value", spec_concrete(macro, r[0], ind, r[1])),
+                                 lambda r, macro=macro, ind=ind: f"{macro}({vt.canon(r[0], ind, r[1])})",
+                                 f"{macro}::{ind}"))
 
         # ---- time_agg_tp ---------------------------------------------------------------------------------------
         f = f"{FILE}:vtl_time_agg_tp"
         chk.under_contract(f)
         for tgt in vt.INDS:
+            section[0] = f"{f}::calendar::{ind}->{tgt}"
             groups = []
             for n in nums(ind):
                 pre = base + [vt.wf(y, ind, n)]
@@ -209,8 +275,19 @@ def main() -> None:  # noqa: C901
                     badr = got != ("value", want)
                 return badr, f"real DuckDB vtl_time_agg_tp({vt.canon(yy, ind, nn)}, {tgt}) = {got[1]!r}; calendar: {want!r}", \
                     {"period": vt.canon(yy, ind, nn), "target": tgt, "real": got[1], "calendar": want}
+            def want_agg(r: Tuple[Any, ...], ind: str = ind, tgt: str = tgt) -> Tuple[str, Any]:
+                if vt.RANK[ind] > vt.RANK[tgt]:
+                    return "error", "2-1-19-1"
+                if ind == tgt:
+                    return "value", vt.canon(r[0], ind, r[1])
+                return "value", vt.canon(*_swap(vt.period_of_date(vt.end_date(r[0], ind, r[1]), tgt), tgt))
             discharge_groups(chk, eng, f, f"calendar::{ind}->{tgt}", clause, groups, ["y", "n"], rp_agg,
-                             lambda m, path, ind=ind, tgt=tgt: f"vtl_time_agg_tp::{ind}->{tgt}", prefer=near)
+                             lambda m, path, ind=ind, tgt=tgt: f"vtl_time_agg_tp::{ind}->{tgt}", prefer=near,
+                             fallback=native_fallback(
+                                 f"vtl_time_agg_tp to {tgt}, every {ind} period", ["y", "n"],
+                                 f"vtl_time_agg_tp({pexpr(ind)}, '{tgt}')", lambda ind=ind: native_periods(ind), want_agg,
+                                 lambda r, ind=ind, tgt=tgt: f"vtl_time_agg_tp({vt.canon(r[0], ind, r[1])}, {tgt})",
+                                 f"vtl_time_agg_tp::{ind}->{tgt}"))
 
     # ---- time_agg_date / dateadd over all dates ----------------------------------------------------------------
     z = d.const("z", smt.INT)
@@ -220,6 +297,7 @@ def main() -> None:  # noqa: C901
     f = f"{FILE}:vtl_time_agg_date"
     chk.under_contract(f)
     for tgt in vt.INDS:
+        section[0] = f"{f}::calendar::{tgt}"
         paths = explore(pre_z, lambda tgt=tgt: eng.call_macro("vtl_time_agg_date", [dz, SV("str", CStr.lit(tgt), False)]))
         ty, tn = vt.period_of_date(z, tgt)
 
@@ -233,24 +311,45 @@ def main() -> None:  # noqa: C901
         discharge_groups(chk, eng, f, f"calendar::{tgt}", f"[{tgt}] vtl_time_agg_date(d, {tgt}) is the text of the "
                          f"{tgt}-period containing d, for every date",
                          [({}, paths, pre_z, lambda path, ty=ty, tn=tn, tgt=tgt: text_is(path, ty, tgt, tn))], ["z"], rp_ad,
-                         lambda m, path, tgt=tgt: f"vtl_time_agg_date::{tgt}")
+                         lambda m, path, tgt=tgt: f"vtl_time_agg_date::{tgt}",
+                         fallback=native_fallback(
+                             f"vtl_time_agg_date to {tgt}, every day", ["z"], f"vtl_time_agg_date({Z_EXPR}, '{tgt}')",
+                             native_days,
+                             lambda r, tgt=tgt: ("value", vt.canon(*_swap(vt.period_of_date(r[0], tgt), tgt))),
+                             lambda r, tgt=tgt: f"vtl_time_agg_date({as_date(r[0])}, {tgt})",
+                             f"vtl_time_agg_date::{tgt}"))
     f = f"{FILE}:vtl_dateadd"
     chk.under_contract(f)
     for ind in vt.INDS:
+        section[0] = f"{f}::calendar::{ind}"
         pre_a = pre_z + [Ge(k, -1200), Le(k, 1200)]
         paths = explore(pre_a, lambda ind=ind: eng.call_macro("vtl_dateadd", [dz, sv_int(k), SV("str", CStr.lit(ind), False)]))
-        spec = {"D": Add(z, k), "W": Add(z, Mul(k, 7)), "M": cal.add_months(z, k), "Q": cal.add_months(z, Mul(k, 3)),
-                "S": cal.add_months(z, Mul(k, 6)), "A": cal.add_months(z, Mul(k, 12))}[ind]
+        spec = dateadd_spec(z, k, ind)
+
+        def rp_add(model: Dict[str, Any], path: SqlPath, ind: str = ind) -> Any:
+            zz, kk = ival(model, "z"), ival(model, "k")
+            got = real("vtl_dateadd", [as_date(zz), kk, ind])
+            want = as_date(dateadd_spec(zz, kk, ind))
+            return not sqlnative.agree(got, ("value", want)), \
+                f"real DuckDB vtl_dateadd({as_date(zz)}, {kk}, {ind}) = {got[1]!r}; calendar {want!r}", \
+                {"date": str(as_date(zz)), "k": kk, "unit": ind, "real": str(got[1]), "calendar": str(want)}
         discharge_groups(chk, eng, f, f"calendar::{ind}", f"[{ind}] vtl_dateadd(d, k, {ind}) = d plus k units "
                          "(month-based units clamp to the last day of the month)",
-                         [({}, paths, pre_a, lambda path, spec=spec: date_is(path, spec))], ["z", "k"], None,
-                         lambda m, path, ind=ind: f"vtl_dateadd::{ind}")
+                         [({}, paths, pre_a, lambda path, spec=spec: date_is(path, spec))], ["z", "k"], rp_add,
+                         lambda m, path, ind=ind: f"vtl_dateadd::{ind}",
+                         fallback=native_fallback(
+                             f"vtl_dateadd unit {ind}, every day x k in {NATIVE_SHIFTS}", ["z", "k"],
+                             f"vtl_dateadd({Z_EXPR}, CAST(k AS INTEGER), '{ind}')",
+                             lambda: [(r[0], kk) for r in native_days() for kk in NATIVE_SHIFTS],
+                             lambda r, ind=ind: ("value", as_date(dateadd_spec(r[0], r[1], ind))),
+                             lambda r, ind=ind: f"vtl_dateadd({as_date(r[0])}, {r[1]}, {ind})", f"vtl_dateadd::{ind}"))
 
     # ---- datediff ---------------------------------------------------------------------------------------------
     f = f"{FILE}:vtl_tp_datediff"
     chk.under_contract(f)
     y2, n2 = d.const("y2", smt.INT), d.const("n2", smt.INT)
     for ind in vt.INDS:
+        section[0] = f"{f}::calendar::{ind}"
         groups = []
         for na in nums(ind):
             for nb in ([n2] if ind not in SMALL else range(1, SMALL[ind] + 1)):
@@ -261,14 +360,32 @@ def main() -> None:  # noqa: C901
                 diff = Sub(vt.end_date(y2, ind, nb), vt.end_date(y, ind, na))
                 groups.append(({"n": na, "n2": nb} if isinstance(na, int) else {}, paths, pre,
                                lambda path, diff=diff: int_is(path, Ite(Ge(diff, 0), diff, Neg(diff)))))
+        def rp_dd(model: Dict[str, Any], path: SqlPath, ind: str = ind) -> Any:
+            a, b = (ival(model, "y"), ind, ival(model, "n")), (ival(model, "y2"), ind, ival(model, "n2"))
+            got = real("vtl_tp_datediff", [a, b])
+            want = abs(vt.end_date(*b) - vt.end_date(*a))
+            return got != ("value", want), f"real DuckDB vtl_tp_datediff({vt.canon(*a)}, {vt.canon(*b)}) = {got[1]!r}; " \
+                                           f"calendar: {want!r}", {"a": vt.canon(*a), "b": vt.canon(*b),
+                                                                   "real": str(got[1]), "calendar": want}
         discharge_groups(chk, eng, f, f"calendar::{ind}", f"[{ind}] vtl_tp_datediff(a, b) = |last day of a - last day "
-                         "of b|", groups, ["y", "n", "y2", "n2"], None, lambda m, path, ind=ind: f"vtl_tp_datediff::{ind}")
+                         "of b|", groups, ["y", "n", "y2", "n2"], rp_dd, lambda m, path, ind=ind: f"vtl_tp_datediff::{ind}",
+                         fallback=native_fallback(
+                             f"vtl_tp_datediff, every {ind} period against its successor, {NATIVE_YEARS[0]}-{ind}1 and "
+                             f"the last {ind} period of 2000", ["y", "n", "y2", "n2"],
+                             f"vtl_tp_datediff({pexpr(ind)}, {pexpr(ind, 'y2', 'n2')})",
+                             lambda ind=ind: [(yy, nn) + b for yy, nn in native_periods(ind)
+                                              for b in (vt.shift(yy, ind, nn, 1), (NATIVE_YEARS[0], 1),
+                                                        (2000, int(vt.maxnum(ind, 2000))))],
+                             lambda r, ind=ind: ("value", abs(vt.end_date(r[2], ind, r[3]) - vt.end_date(r[0], ind, r[1]))),
+                             lambda r, ind=ind: f"vtl_tp_datediff({vt.canon(r[0], ind, r[1])}, {vt.canon(r[2], ind, r[3])})",
+                             f"vtl_tp_datediff::{ind}"))
 
     # ---- daytoyear / daytomonth ---------------------------------------------------------------------------------
     days = d.const("days", smt.INT)
     for macro, unit, letter in (("vtl_daytoyear", 365, "Y"), ("vtl_daytomonth", 30, "M")):
         f = f"{FILE}:{macro}"
         chk.under_contract(f)
+        section[0] = f"{f}::duration-text"
         pre_d = [Ge(days, -100000), Le(days, 9999999)]
         paths = explore(pre_d, lambda macro=macro: eng.call_macro(macro, [sv_int(days)]))
 
@@ -289,7 +406,13 @@ def main() -> None:  # noqa: C901
                        Eq(digits_value(r), smt.Mod(days, unit)))
         discharge_groups(chk, eng, f, "duration-text", f"{macro}(k) = 'P<k div {unit}>{letter}<k mod {unit}>D' for "
                          "k >= 0 and VTL error 2-1-19-16 for k < 0", [({}, paths, pre_d, post_d)], ["days"], None,
-                         lambda m, path, macro=macro: macro)
+                         lambda m, path, macro=macro: macro,
+                         fallback=native_fallback(
+                             f"{macro}, k = -1000..100000", ["k"], f"{macro}(CAST(k AS INTEGER))",
+                             lambda: [(kk,) for kk in range(-1000, 100001)],
+                             lambda r, unit=unit, letter=letter: ("error", "2-1-19-16") if r[0] < 0 else
+                             ("value", f"P{r[0] // unit}{letter}{r[0] % unit}D"),
+                             lambda r, macro=macro: f"{macro}({r[0]})", macro))
 
     chk.extra["macros_evaluated"] = sorted(eng.used_macros)
     chk.extra["prune_solver_calls"] = eng.prune_calls
@@ -306,6 +429,15 @@ def main() -> None:  # noqa: C901
 
 def _swap(yn: Tuple[Any, Any], ind: str) -> Tuple[Any, str, Any]:
     return yn[0], ind, yn[1]
+
+
+def dateadd_spec(z: Any, k: Any, ind: str) -> Any:
+    """d + k units as a day number (terms or integers)."""
+    if ind == "D":
+        return Add(z, k)
+    if ind == "W":
+        return Add(z, Mul(k, 7))
+    return cal.add_months(z, Mul(k, {"M": 1, "Q": 3, "S": 6, "A": 12}[ind]))
 
 
 def spec_concrete(macro: str, yy: int, ind: str, nn: int) -> Any:
